@@ -159,6 +159,27 @@ def read(game) -> Dict[tuple, Any]:
             for fi in fo.files.values():
                 out[("file", h, fo.name, fi.name)] = (int(fi.sim_size or 0), _enum_name(fi.file_type))
 
+    # effective NMNE configuration: what the built interfaces use (class-level state set by the loader)
+    seen = []
+    for node in net.nodes.values():
+        for ni in node.network_interfaces.values():
+            d = ni.nmne_config.model_dump()
+            if d not in seen:
+                seen.append(d)
+    if not seen:
+        from primaite.simulator.network.hardware.base import NetworkInterface
+
+        seen.append(NetworkInterface.nmne_config.model_dump())
+    if len(seen) > 1:
+        out[("nmne-disagree",)] = len(seen)
+    for field, v in seen[0].items():
+        out[("nmne", field)] = [str(x) for x in v] if isinstance(v, list) else bool(v)
+    from primaite.game.agent.observations import NICObservation
+
+    out[("nmne-obs",)] = bool(NICObservation.capture_nmne)
+    for freq in list(net.airspace.frequencies):
+        out[("airspace", freq)] = round(float(net.airspace.get_frequency_max_capacity_mbps(freq)), 6)
+
     for l in net.links.values():
         a, b = l.endpoint_a, l.endpoint_b
         e = sorted([(a.parent.config.hostname, int(a.port_num)), (b.parent.config.hostname, int(b.port_num))])
